@@ -10,4 +10,10 @@ CHECKS = {
          'note': 'Trusted: clang++-14 -O1 lowering, own IR interpreter (validated each run against the native g++ -O2 build on concrete tables), z3; doubles modelled as exact reals; N<=5 (quick) / N<=7 (thorough), grids up to 3x4 / 4x4.',
          'technique': EA},
 }
+CHECKS['C09'] = {'text': 'One inductive step over the cache: the real Interpolation::Locate (Hunt and Bisection inlined) is executed symbolically from every cache state (jLast, correlated_calls) with symbolic abscissae and query point; '
+   'every returning path yields a bracket-correct index, equal to the fresh-object result off the knots (neighbouring segment at a knot), and leaves a valid cache, so histories of any length are covered by induction. '
+   'Interpolate/Derivative/Integrate/Local_Minimum/Local_Maximum and the 2D Interpolate yield structurally identical result terms from every cache state and from the fresh state (hence bit-identical doubles); '
+   'Set_Prefactor/Multiply write only the prefactor, copy-assignment copies every field.',
+   'note': 'Bounds: N<=12 (quick) / N<=32 (thorough) for Locate, N<=5 / N<=7 for the queries, 3x3 / 4x4 grids. Exact real arithmetic (comparisons are exact in IEEE too; the tolerance product 1e-2*h is the only rounded operation). Trusted: clang lowering, interpreter (validated vs native on all cache states of two tables each run), z3.',
+   'technique': EA}
 NOT_APPLICABLE = {}
